@@ -258,7 +258,7 @@ func (r *Reconciler) updateInstanceWithCurrentRS(logger logr.Logger, now time.Ti
 
 		if isCanaryActive {
 			// manager CanaryNode selection.
-			nbCanaryPod, err := intstrutil.GetValueFromIntOrPercent(daemonset.Spec.Strategy.Canary.Replicas, int(daemonset.Status.Desired), true)
+			nbCanaryPod, err := r.resolveCanaryReplicas(logger, &daemonset.Spec, upToDate)
 			if err != nil {
 				logger.Error(err, "unable to select Nodes for canary")
 
@@ -372,7 +372,7 @@ func (r *Reconciler) selectNodes(logger logr.Logger, daemonset *datadoghqv1alpha
 
 	// A percentage is resolved against the number of nodes targeted by the ExtendedDaemonSet, like in updateInstanceWithCurrentRS
 	// (the status of the canary replica set itself only counts the canary nodes already selected).
-	nbCanaryPod, err := intstrutil.GetValueFromIntOrPercent(daemonsetSpec.Strategy.Canary.Replicas, int(daemonset.Status.Desired), true)
+	nbCanaryPod, err := r.resolveCanaryReplicas(logger, daemonsetSpec, replicaset)
 	if err != nil {
 		return err
 	}
@@ -480,6 +480,42 @@ func (r *Reconciler) selectNodes(logger logr.Logger, daemonset *datadoghqv1alpha
 	}
 
 	return nil
+}
+
+// resolveCanaryReplicas returns the number of canary nodes requested by spec.strategy.canary.replicas.
+// A percentage is resolved against the number of nodes the ExtendedDaemonSet targets, i.e. the nodes on which a
+// pod of the new template can be scheduled. status.desired cannot be used for that: during a canary it is the
+// sum of the desired pods of the active and of the canary replica sets, so the canary nodes are counted twice
+// until the active replica set has synced again, and the canary node list would grow beyond the requested share.
+func (r *Reconciler) resolveCanaryReplicas(logger logr.Logger, daemonsetSpec *datadoghqv1alpha1.ExtendedDaemonSetSpec, replicaset *datadoghqv1alpha1.ExtendedDaemonSetReplicaSet) (int, error) {
+	replicas := daemonsetSpec.Strategy.Canary.Replicas
+	if replicas.Type == intstrutil.Int {
+		return intstrutil.GetValueFromIntOrPercent(replicas, 0, true)
+	}
+
+	// Same node list as the one the replica set controller works on
+	listOptions := []client.ListOption{}
+	if replicaset.Spec.Selector != nil {
+		selector, err := utils.ConvertLabelSelector(logger, replicaset.Spec.Selector)
+		if err != nil {
+			return 0, err
+		}
+		listOptions = append(listOptions, &client.MatchingLabelsSelector{Selector: selector})
+	}
+	nodeList := &corev1.NodeList{}
+	if err := r.client.List(context.TODO(), nodeList, listOptions...); err != nil {
+		return 0, err
+	}
+
+	newPod, _ := podutils.CreatePodFromDaemonSetReplicaSet(r.scheme, replicaset, nil, nil, false)
+	nbNodes := 0
+	for id := range nodeList.Items {
+		if scheduler.CheckNodeFitness(logger.WithValues("filter", "Nodes Unschedulabled"), newPod, &nodeList.Items[id]) {
+			nbNodes++
+		}
+	}
+
+	return intstrutil.GetValueFromIntOrPercent(replicas, nbNodes, true)
 }
 
 func isCanaryActive(daemonset *datadoghqv1alpha1.ExtendedDaemonSet, activeERSName string, upToDateERSName string, isCanaryFailed bool) bool {
